@@ -23,6 +23,7 @@ import (
 	"fmt"
 	"io"
 	"os"
+	"path/filepath"
 	"strings"
 
 	"github.com/AliceO2Group/Control/common/gera"
@@ -1673,4 +1674,7 @@ func main() {
 		{Name: "task", Prop: "C14", Direct: scenarioTask(), Doc: "task command line and property map; class defaults/vars below the workflow"},
 		{Name: "call", Prop: "C14", Direct: scenarioCall(), Doc: "call function evaluated with the role's consolidated stack"},
 	})
+	if cfgFile != "" {
+		os.RemoveAll(filepath.Dir(cfgFile)) // the scratch configuration store
+	}
 }
